@@ -30,7 +30,7 @@ RULE = (
     "was built, the same schedule content reached through other library paths "
     "(Schedule.from_dict of the JSON text, from_job_sequences, the schedule "
     "returned by DispatchingRuleSolver and by CP-SAT each next to a twin "
-    "rebuilt by hand on the independent copy), an instance made by "
+    "rebuilt by hand on the independent copy; content installed through the public schedule setter), an instance made by "
     "GeneralInstanceGenerator next to twins built by hand and from JSON, "
     "plus None / int / tuple. Oracle over all ordered pairs and all equal triples: == is "
     "reflexive, symmetric, transitive; True when the strict content "
@@ -230,6 +230,15 @@ def check_case(case, ctx):
             ],
         )
 
+    # content installed through the public `schedule` setter: on an empty
+    # schedule, and over the content of another complete schedule
+    via_setter = Schedule(copy1)
+    via_setter.schedule = by_hand(s0, copy1).schedule
+    schedules.append(("S-via-setter", via_setter))
+    overwritten = by_hand(schedules[1][1], copy1)
+    overwritten.schedule = [lst[:1] for lst in by_hand(s0, copy1).schedule]
+    schedules.append(("S-prefix-via-setter", overwritten))
+    schedules.append(("S-prefix-by-hand", Schedule(base, [lst[:1] for lst in by_hand(s0, base).schedule])))
     if not flexible:
         schedules.append(("S-from_dict(json)", Schedule.from_dict(**json.loads(json.dumps(s0.to_dict())))))
         schedules.append(("S-from_job_sequences", Schedule.from_job_sequences(copy1, [[x.operation.job_id for x in lst] for lst in s0.schedule])))
